@@ -6,9 +6,9 @@ PEER_RECV, PEER_SEND = 0x01, 0x02
 CONNECTING, CONNECTED, READY, READY_WAITING_DWA, DISCONNECTING, CLOSING, CLOSED = 0x10, 0x11, 0x12, 0x13, 0x1a, 0x1b, 0x1c
 
 R.model("BytesQueue", builtin=True, fields={})
-R.model("MsgQueue", builtin=True, fields={"g_put": "List[Message]", "g_taken": "List[Message]"})
+R.model("MsgQueue", builtin=True, fields={"g_put": "Seq[Message]", "g_taken": "Seq[Message]"})
 R.model("PeerConnection", fields={"_read_buffer_queue": "BytesQueue", "_write_msg_queue": "MsgQueue",
-                                  "g_dlog": "List[Message]", "message_handler": "Any:handler"})
+                                  "g_dlog": "Seq[Message]", "message_handler": "Any:handler"})
 R.model("Message", fields={"g_src": "bytes"})
 R.contract("BytesQueue.get", trusted=True, params={"self": "BytesQueue", "block": "bool", "timeout": "int"},
            returns="bytes", raises=[Raise("queue.Empty", "True", "may")],
@@ -16,10 +16,10 @@ R.contract("BytesQueue.get", trusted=True, params={"self": "BytesQueue", "block"
 R.contract("BytesQueue.put", trusted=True, params={"self": "BytesQueue", "item": "bytes"})
 R.contract("MsgQueue.get", trusted=True, params={"self": "MsgQueue", "block": "bool", "timeout": "int"},
            returns="Message", raises=[Raise("queue.Empty", "True", "may")],
-           ghost_modifies=["list:self.g_taken"],
+           ghost_modifies=["self.g_taken"],
            ghost_ensures=["items(self.g_taken) == old(items(self.g_taken)) + [result]"])
 R.contract("MsgQueue.put", trusted=True, params={"self": "MsgQueue", "item": "Message"},
-           ghost_modifies=["list:self.g_put"],
+           ghost_modifies=["self.g_put"],
            ghost_ensures=["items(self.g_put) == old(items(self.g_put)) + [item]"])
 
 # Message.from_bytes: ghost source bytes of a decoded message
@@ -48,7 +48,7 @@ _HANDLER_MODS = ["*PeerConnection.state", "*PeerConnection._last_dwr", "*PeerCon
                  "*PeerConnection.acct_application_ids", "*PeerConnection.host_ip_address"]
 R.contract("PeerConnection.__dispatch_message", params={"self": "PeerConnection", "msg": "Message"},
            modifies=_HANDLER_MODS,
-           ghost_modifies=["list:self.g_dlog"],
+           ghost_modifies=["self.g_dlog"],
            ghost_ensures=["items(self.g_dlog) == old(items(self.g_dlog)) + [msg]"],
            checks_only=True,
            note="used by work_read_queue; its own gate contract is in C06")
@@ -59,14 +59,14 @@ R.contract("PeerConnection.work_read_queue", params={"self": "PeerConnection", "
            requires=[("starts-empty", "rb(self) == b''")],
            raises=[], modifies=["self._read_buffer", "self._last_read", "self._last_msg", "self.state",
                                 "self._read_thread.stopped", "self._write_thread.stopped"] + _HANDLER_MODS,
-           ghost_modifies=["list:self.g_dlog"],
+           ghost_modifies=["self.g_dlog"],
            props=["C05", "C14"],
            note="thread target: raises nothing; the framing obligations are the loop clauses below")
 R.macro("stuck", ["b"], "len(b) < 20 or hlen(b) > len(b)")
 R.loop("PeerConnection.work_read_queue", 0,
        invariants=[("no-complete-frame-left-waiting", "stuck(rb(self)) or self.state == %d" % CLOSED)],
        local_kinds={"resume_waiting": "bool", "message": "Opt[Message]", "msg_header": "Opt[MessageHeader]"},
-       modifies=["self._read_buffer", "self._last_read", "self._last_msg", "list:self.g_dlog"] + _HANDLER_MODS)
+       modifies=["self._read_buffer", "self._last_read", "self._last_msg", "self.g_dlog"] + _HANDLER_MODS)
 R.loop("PeerConnection.work_read_queue", 1,
        invariants=[("waiting-only-when-stuck", "implies(resume_waiting, stuck(rb(self)))")],
        local_kinds={"message": "Opt[Message]", "msg_header": "Opt[MessageHeader]"},
@@ -84,4 +84,4 @@ R.loop("PeerConnection.work_read_queue", 1,
                                         "items(self.g_dlog)[len(self.g_dlog) - 1].g_src == "
                                         "prev(rb(self))[:hlen(prev(rb(self)))] and "
                                         "20 <= hlen(prev(rb(self))) <= len(prev(rb(self))))")],
-       modifies=["self._read_buffer", "self._last_msg", "list:self.g_dlog"] + _HANDLER_MODS)
+       modifies=["self._read_buffer", "self._last_msg", "self.g_dlog"] + _HANDLER_MODS)
